@@ -140,6 +140,7 @@ func runC09(env *Env, tier string) {
 	a.o.Corrupt = func(b []byte) []byte {
 		if ch.Choose("corrupt?", 10) < rate {
 			corrupted++
+			p.Bytewise = true // framing on this connection may be damaged from here on
 			return corruptFrame(env, b)
 		}
 		return b
